@@ -179,7 +179,7 @@ NA_REASON = {}
 ADD = {
  "C01": "Magnitudes from 3*10^4 up to the largest float32 are judged with base-10^8 limb arithmetic in the specification (Round4Big, ASSUMEd equal to Round4 where both apply), id offsets up to 2*10^9. Every file source is written to one and the same path (a reader that remembers a path's earlier content shows).",
  "C02": "The reader is also handed a logging text stream; Trace_SwcIO replays the recorded events at the level the property fixes (position, doomed after a bad line, outcome): no return after a bad line or before every line was handed out, no error on a valid file. Byte / path sources also with encoding='detect' and bare-CR line ends; extra_cols as one-shot iterables; the lazy read of a population over the file's directory.",
- "C03": "One operation in four is carried out twice with the first result overwritten in place in between (results must not alias internal caches). Every single operation instance on every 5-node (thorough: 6-node) topology under every numbering; random pipelines start from trees numbered children-first.",
+ "C03": "One operation in four is carried out twice with the first result overwritten in place in between (results must not alias internal caches). Every single operation instance on every 5-node (thorough: 6-node) topology under every numbering; random pipelines start from trees numbered children-first. ToBranchTree among the operations; the heap projection follows the branches a branch tree remembers.",
  "C04": "Histories (traverse, re-parent a node in place through its handle, traverse again) are generated from SwcBase.Reparent for every topology and admissible edit; callbacks that return None; trees of 7*10^4-1.5*10^5 nodes under interleaved numberings are validated by the folded judge Trace_BigRec, which MC_BigRec checks against StructRec on every small tree. A comb of 24 000 nodes (a twig at every spine node); the start handle obtained with a negative key. Half of the table-entry cases hold a second tree after the first (a forest); variant choices by a hash of the case number.",
  "C05": "Columns are also held as float64 with values no float32 represents, the extra column has missing (NaN) entries, an earlier result of the same call is overwritten in place, and the tree is sorted before and after an in-place re-parenting. The second sort alternates between the copying and the in-place form.",
  "C06": "One case in four reaches its tree by an in-place re-parenting after the tree was queried; transform objects are reused after other trees / after the same tree object with other coordinates; an earlier result of the same call is overwritten in place. The removals of to_subtree are handed over as list, tuple, set, array, dict view, generator, iterator and chain (one-shot iterables); results are read after the transform object went on to other trees. Tree.get_neurites / get_dendrites (Subtree.Neurites, Dendrites); a failed call (raising user callback) before the judged call of CutShortTipBranch. Every tree carries a 64-bit integer attribute near 1.7*10^18.",
@@ -192,7 +192,7 @@ ADD = {
  "C13": "Every case again at atlas-sized coordinates (10^4-10^5) and at the units 10^-6 and 2.5*10^4; half of the sphere-frustum cases on a frustum object that was asked about other, short-lived spheres before. Centres are handed over in buffers that the caller overwrites once the solids are built; a sphere object is first asked about short-lived frusta.",
  "C14": "Levels 3-4 again on an exact float32 lattice at 2^20 / 2^21 from the origin and at the units 10^-6 / 2.5*10^4; mirror-symmetric two-armed roots at levels 5, 6, 8, 9; a renumbered variant; one extractor object asked at several accuracies (list and dict forms). A history stage: the same tree object is measured with one node edited in place (radius, position), restored in place, and measured again. One-node trees at levels 1-5.",
  "C15": "Every document again with all points coincident / two alternating points (DupStream); comments placed across the 4 KiB / 8 KiB / 64 KiB marks of the character stream. Every document saved under one and the same path.",
- "C16": "All numberings (children may precede parents); coincident sibling tips with branch count and pair-based connectivity; resampler / smoother objects reused after other trees and after the same tree object with other coordinates. Resampler / smoother results are read after the same object went on to other branches and trees. Placements: atlas coordinates and a unit of 10.1 with the origin inside the tree.",
+ "C16": "All numberings (children may precede parents); coincident sibling tips with branch count and pair-based connectivity; resampler / smoother objects reused after other trees and after the same tree object with other coordinates. Resampler / smoother results are read after the same object went on to other branches and trees. Placements: atlas coordinates and a unit of 10.1 with the origin inside the tree. A BranchTree object handed to the resampler (branch trees of trees with 3-4-5 bends).",
  "C17": "Transform objects reused after tiny clouds; limits 12 and 15 with strong balancing; a soma a fraction of a unit from a cloud point at atlas-sized coordinates. Coincident points (a row recorded twice; the soma given again as a row of the cloud). Integer clouds with a soma between voxel centres; clouds given in metres. The deprecated alias k_furcations in a quarter of the PointsToMST cases.",
  "C18": "A warning of any text or category counts as the warning the statement asks for. Rings and lassos of 5-7 rows in every row order; rows listed in other orders; a repairing read of a file followed by a plain read of the same file. A quarter of the tables come in a frame whose index labels are not 0..n-1.",
  "C19": "Dot-prefixed folder and file names; three populations of different sizes chained and every ordered pair of indices asked in turn. Trees of different sizes; populations of hundreds of files walked twice; flat directories sharing most names, filled in different sequences on a memory file system. Roots named with and without a trailing separator.",
